@@ -91,29 +91,52 @@ def r1_keyword_chain(ctx):
 
 # ------------------------------------------------------------------------------------------------ R2
 
+def _find_triple(bt, depth=0):
+    """The (op, l_bp, r_bp) tuple of an arm, possibly wrapped (`Some((op, l, r))`, a block)."""
+    if not isinstance(bt, dict) or depth > 4:
+        return None
+    if bt.get("k") == "tup" and len(bt.get("es", [])) == 3:
+        return bt
+    for v in bt.values():
+        if isinstance(v, dict):
+            r = _find_triple(v, depth + 1)
+            if r is not None:
+                return r
+        elif isinstance(v, list):
+            for x in v:
+                r = _find_triple(x, depth + 1)
+                if r is not None:
+                    return r
+    return None
+
+
 def binding_table(ctx):
+    import re
     pc = ctx.need("syntax::parser::Parser::parse_expression_continuation")
     ctx.touch(pc)
-    for m in pc.matches:
-        if "Token" not in m["scrut_ty"]:
-            continue
-        tab = {}
-        for arm in m["arms"]:
-            bt = arm["body_tree"]
-            if bt.get("k") != "tup" or len(bt["es"]) != 3:
+    # the table sits in the continuation routine or in a private helper it calls (`fn binary_operator(token) -> Option<..>`)
+    bodies = [pc] + [ctx.lib.fns[c.callee] for c in pc.calls() if c.callee in ctx.lib.fns and ctx.lib.fns[c.callee].file == "src/syntax/parser.rs" and c.callee != pc.id]
+    for body in bodies:
+        for m in body.matches:
+            if "Token" not in m["scrut_ty"]:
                 continue
-            paths = tree_paths(bt["es"][0])
-            ints = []
-            for e in bt["es"][1:]:
-                v = e.get("v", "") if e.get("k") == "lit" else ""
-                import re
-                mm = re.search(r"Pu128\((\d+)\)", v)
-                ints.append(int(mm.group(1)) if mm else None)
-            toks = [p["path"].split("::")[-1] for p in ([arm["pat"]] if arm["pat"]["k"] != "or" else arm["pat"]["subs"]) if "path" in p]
-            for t in toks:
-                tab[t] = (paths[-1].split("::")[-1] if paths else None, ints[0], ints[1])
-        if tab:
-            return pc, tab
+            tab = {}
+            for arm in m["arms"]:
+                bt = _find_triple(arm["body_tree"])
+                if bt is None:
+                    continue
+                paths = tree_paths(bt["es"][0])
+                ints = []
+                for e in bt["es"][1:]:
+                    v = e.get("v", "") if e.get("k") == "lit" else ""
+                    mm = re.search(r"Pu128\((\d+)\)", v)
+                    ints.append(int(mm.group(1)) if mm else None)
+                toks = [p_["path"].split("::")[-1] for p_ in ([arm["pat"]] if arm["pat"]["k"] != "or" else arm["pat"]["subs"]) if "path" in p_]
+                for t in toks:
+                    tab[t] = (paths[-1].split("::")[-1] if paths else None, ints[0], ints[1])
+            if tab:
+                ctx.touch(body)
+                return pc, tab
     return pc, None
 
 
